@@ -278,8 +278,7 @@ Section WalkInv.
 End WalkInv.
 
 (** A walk reports every mailbox that holds mail in every state from the walk's first read to its
-    last.  (The walk may in addition report a mailbox once more only if ... — see
-    [file_visit_at_most_once_stmt]: not proved.) *)
+    last ("at least once"; "at most once" is [file_visit_at_most_once] in ConcFileVisitOnce.v). *)
 Theorem file_visit_sees_stable_mailboxes_partial : forall g ops sched mb t,
   wf_geo g -> aget mb g <> None ->
   Forall (fun s => during t s -> holds mb s) (ftrace (finit g ops) sched) ->
@@ -290,12 +289,6 @@ Proof.
   destruct (trace_invW g mb t Hwf Hmb sched _ (init_invW g mb t ops) HF s Hs) as (_ & _ & _ & Ha).
   exact (Ha _ Hn).
 Qed.
-
-(** The part of "exactly once" that is not proved: no mailbox is reported twice by one walk. *)
-Definition file_visit_at_most_once_stmt : Prop :=
-  forall g ops sched s t l, wf_geo g ->
-    In s (ftrace (finit g ops) sched) -> nth_error (f_thr s) t = Some (FDone (RVisit l)) ->
-    NoDup (map fst l).
 
 (** Non-vacuity: a walk overlapping a delivery to another mailbox; mailbox 1 holds mail throughout. *)
 Definition ex_geo : geo := [(1, (5, 7)); (2, (6, 8))].
